@@ -22,20 +22,20 @@ GEN_INVARIANTS = ["GenShape", "GenValid", "GenStrict", "NormalIdem", "DeviationI
 # A tier is a list of passes (roots, K, KV, shards):  K = refinement depth, variants are taken
 # from states of depth < KV.  All shards of all passes run in one pool.
 TIERS = {
-    "quick": [dict(roots="all", K=1, KV=1, shards=10),
-              dict(roots="response", K=2, KV=0, shards=6),
-              dict(roots="unionholder", K=2, KV=0, shards=8),
-              dict(roots="alias", K=3, KV=0, shards=2)],
-    "thorough": [dict(roots="all", K=2, KV=2, shards=32),
-                 dict(roots="response", K=3, KV=0, shards=24),
-                 dict(roots="alias", K=4, KV=0, shards=4)],
+    "quick": [dict(roots="all", K=1, KV=1, KU=2, shards=10),
+              dict(roots="response", K=2, KV=0, KU=3, shards=8),
+              dict(roots="unionholder", K=2, KV=0, KU=3, shards=10),
+              dict(roots="alias", K=3, KV=0, KU=4, shards=2)],
+    "thorough": [dict(roots="all", K=2, KV=2, KU=3, shards=32),
+                 dict(roots="response", K=3, KV=0, KU=3, shards=24),
+                 dict(roots="alias", K=4, KV=0, KU=4, shards=4)],
 }
 
 
-def gen_cfg(K, KV, nshards, shard, roots="all", emit=True):
-    return ("CONSTANTS K = %d NShards = %d Shard = %d Emit = %s RootSel = \"%s\" KV = %d\n"
+def gen_cfg(K, KV, nshards, shard, roots="all", emit=True, KU=0):
+    return ("CONSTANTS K = %d NShards = %d Shard = %d Emit = %s RootSel = \"%s\" KV = %d KU = %d\n"
             "INIT Init\nNEXT Next\nVIEW View\n%s\nCHECK_DEADLOCK FALSE\n"
-            % (K, nshards, shard, "TRUE" if emit else "FALSE", roots, KV,
+            % (K, nshards, shard, "TRUE" if emit else "FALSE", roots, KV, KU,
                "\n".join("INVARIANT " + i for i in GEN_INVARIANTS)))
 
 
@@ -52,12 +52,13 @@ def pkg_env(pkg_path):
 
 
 def one_shard(args):
-    (K, KV, nshards, shard, roots, model, pkg_path, work) = args
+    (K, KV, nshards, shard, roots, model, pkg_path, work) = args[:8]
+    KU = args[8] if len(args) > 8 else 0
     t0 = time.time()
     states = os.path.join(work, "states-%d.txt" % shard)
     trace = os.path.join(work, "trace-%d.json" % shard)
     env = {"LSP_MODEL": model}
-    rc, _ = common.run_tlc("Codec", gen_cfg(K, KV, nshards, shard, roots), env=env, out_path=states, heap="2g")
+    rc, _ = common.run_tlc("Codec", gen_cfg(K, KV, nshards, shard, roots, KU=KU), env=env, out_path=states, heap="2g")
     head = open(states, encoding="utf-8", errors="replace").read()
     gen_text = "\n".join(l for l in head.splitlines() if not l.startswith('"@S'))
     if "Model checking completed. No error has been found." not in gen_text:
@@ -125,7 +126,7 @@ def run(tier, model=None, pkg_path=None, use_cache=True, passes=None):
         for pi, ps in enumerate(passes):
             d = os.path.join(work, "p%d" % pi)
             os.makedirs(d)
-            jobs += [(ps["K"], ps["KV"], ps["shards"], s, ps["roots"], model, pkg_path, d) for s in range(ps["shards"])]
+            jobs += [(ps["K"], ps["KV"], ps["shards"], s, ps["roots"], model, pkg_path, d, ps.get("KU", 0)) for s in range(ps["shards"])]
         with cf.ThreadPoolExecutor(max_workers=common.NCPU) as ex:
             parts = list(ex.map(one_shard, jobs))
     finally:
